@@ -19,6 +19,8 @@ func main() {
 		fmt.Fprintln(os.Stderr, "usage: harness <replay|...>")
 		os.Exit(2)
 	}
+	poolTraceInit()
+	defer poolTraceClose()
 	switch os.Args[1] {
 	case "replay":
 		cmdReplay(os.Args[2:])
